@@ -7,7 +7,7 @@
    REUSABLE STATEMENTS
      rnd_opp f_of_Z_opp f_mul_neg_l f_to_i32_neg emul_f_opp
      rnd_le f_of_Z_le f_of_dec_le f_mul_le f_add_le f_sub_le f_neg_le f_div_le f_to_i32_le emul_f_le *)
-From WV Require Import F32.
+From WV Require Import F32 Eval.
 From Coq Require Import Lia ZifyBool.
 Ltac Zify.zify_post_hook ::= Z.to_euclidean_division_equations.
 Open Scope Z_scope.
@@ -168,23 +168,32 @@ Proof.
   nia.
 Qed.
 
-(* |a / b| <= k <= 2^21  ->  |rnd (a/b)| <= k + 1 *)
-Theorem rnd_le : forall a b k, 0 < b -> 0 <= k <= 2 ^ 21 -> Z.abs a <= k * b -> fabs_le (rnd a b) (k + 1).
+(* |a / b| <= k  ->  |rnd (a/b)| <= K  as soon as  k (1 + 2^-21) <= K *)
+Theorem rnd_le_gen : forall a b k K, 0 < b -> 0 <= k -> k * (2 ^ 21 + 1) <= K * 2 ^ 21 ->
+  Z.abs a <= k * b -> fabs_le (rnd a b) K.
 Proof.
-  intros a b k Hb Hk Ha. unfold rnd, fabs_le. destruct (Z.eqb_spec a 0) as [E|E].
-  - cbn [fm fe]. change (Z.abs 0) with 0. pose proof (Q2_pos 0). lia.
+  intros a b k K Hb Hk HK Ha. unfold rnd, fabs_le. destruct (Z.eqb_spec a 0) as [E|E].
+  - cbn [fm fe]. change (Z.abs 0) with 0. pose proof (Q2_pos 0). nia.
   - destruct (rnd_mag (Z.abs a) b) as [m e] eqn:Em. cbn [fm fe].
     destruct (rnd_mag_tight (Z.abs a) b m e ltac:(lia) Hb Em) as [Hm Ht].
-    assert (Habs : Z.abs (Z.sgn a * m) = m) by (rewrite Z.abs_mul, Z.abs_sgn; destruct (Z.eq_dec a 0); lia || nia).
+    assert (Habs : Z.abs (Z.sgn a * m) = m).
+    { assert (Hs : Z.sgn a = 1 \/ Z.sgn a = -1) by lia. destruct Hs as [-> | ->]; lia. }
     rewrite Habs. pose proof (P2_pos e) as HP. pose proof (Q2_pos e) as HQ.
     set (X := m * P2 e) in *. set (Y := Q2 e) in *.
     assert (H1 : X * b * 2 ^ 21 <= (2 ^ 21 + 1) * (k * b) * Y).
     { replace (X * b * 2 ^ 21) with (m * P2 e * b * 2 ^ 21) by (unfold X; ring).
       assert ((2 ^ 21 + 1) * Z.abs a * Y <= (2 ^ 21 + 1) * (k * b) * Y) by nia. lia. }
     assert (H2 : X * 2 ^ 21 <= (2 ^ 21 + 1) * k * Y) by nia.
-    assert (H3 : (2 ^ 21 + 1) * k * Y <= (k + 1) * 2 ^ 21 * Y) by nia.
+    assert (H3 : (2 ^ 21 + 1) * k * Y <= K * 2 ^ 21 * Y) by nia.
     nia.
 Qed.
+
+(* |a / b| <= k <= 2^21  ->  |rnd (a/b)| <= k + 1 *)
+Theorem rnd_le : forall a b k, 0 < b -> 0 <= k <= 2 ^ 21 -> Z.abs a <= k * b -> fabs_le (rnd a b) (k + 1).
+Proof. intros a b k Hb Hk Ha. apply (rnd_le_gen a b k (k + 1) Hb); lia. Qed.
+
+Theorem rnd_le2 : forall a b k, 0 < b -> 0 <= k -> Z.abs a <= k * b -> fabs_le (rnd a b) (2 * k).
+Proof. intros a b k Hb Hk Ha. apply (rnd_le_gen a b k (2 * k) Hb); lia. Qed.
 
 Lemma f_of_Z_le : forall z k, 0 <= k <= 2 ^ 21 -> Z.abs z <= k -> fabs_le (f_of_Z z) (k + 1).
 Proof. intros z k Hk Hz. unfold f_of_Z. apply rnd_le; lia. Qed.
@@ -227,9 +236,9 @@ Proof.
   pose proof (P2_pos (fe x)). pose proof (P2_pos (fe y)). pose proof (Q2_pos (fe x)). pose proof (Q2_pos (fe y)).
   apply rnd_le; [nia | lia |].
   set (P1 := P2 (fe x)) in *. set (P' := P2 (fe y)) in *. set (Q1 := Q2 (fe x)) in *. set (Q' := Q2 (fe y)) in *.
-  assert (H1 : Z.abs (fm x * P1 * Q') = Z.abs (fm x) * P1 * Q') by (rewrite !Z.abs_mul, (Z.abs_eq P1), (Z.abs_eq Q') by lia; reflexivity).
-  assert (H2 : Z.abs (fm y * P' * Q1) = Z.abs (fm y) * P' * Q1) by (rewrite !Z.abs_mul, (Z.abs_eq P'), (Z.abs_eq Q1) by lia; reflexivity).
-  pose proof (Z.abs_triangle (fm x * P1 * Q') (fm y * P' * Q1)) as Ht. rewrite H1, H2 in Ht.
+  assert (Ea1 : Z.abs (fm x * P1 * Q') = Z.abs (fm x) * P1 * Q') by (rewrite !Z.abs_mul, (Z.abs_eq P1), (Z.abs_eq Q') by lia; reflexivity).
+  assert (Ea2 : Z.abs (fm y * P' * Q1) = Z.abs (fm y) * P' * Q1) by (rewrite !Z.abs_mul, (Z.abs_eq P'), (Z.abs_eq Q1) by lia; reflexivity).
+  pose proof (Z.abs_triangle (fm x * P1 * Q') (fm y * P' * Q1)) as Ht. rewrite Ea1, Ea2 in Ht.
   assert (Z.abs (fm x) * P1 * Q' <= kx * Q1 * Q') by nia.
   assert (Z.abs (fm y) * P' * Q1 <= ky * Q' * Q1) by nia.
   nia.
@@ -253,12 +262,12 @@ Proof.
   assert (Hden : 0 < Q1 * Z.abs (fm y * P')) by nia.
   destruct (Z.eqb_spec (Q1 * Z.abs (fm y * P')) 0) as [E|E]; [lia|].
   apply rnd_le; [exact Hden | lia |].
-  rewrite !Z.abs_mul. rewrite Z.abs_sgn. rewrite (Z.abs_eq P1), (Z.abs_eq Q'), (Z.abs_eq P') by lia.
-  assert (Hs : Z.abs (Z.sgn (fm y)) = 1) by lia.
-  rewrite Z.sgn_mul, Z.abs_mul, Hs, (Z.sgn_pos P') by lia. change (Z.abs 1) with 1.
-  rewrite Habs in Hden |- *.
-  assert (Z.abs (fm x) * P1 * Q' <= kx * Q1 * Q') by nia.
-  assert (kx * Q1 * Q' <= kx * Q1 * (Z.abs (fm y) * P')) by nia.
+  set (a2 := fm y * P') in *.
+  assert (Ha2 : a2 <> 0) by (unfold a2; nia).
+  assert (Hs : Z.abs (Z.sgn a2) = 1) by lia.
+  rewrite !Z.abs_mul, Hs, (Z.abs_eq P1), (Z.abs_eq Q') by lia. rewrite Habs.
+  assert (Hn1 : Z.abs (fm x) * P1 * Q' <= kx * Q1 * Q') by nia.
+  assert (Hn2 : kx * Q1 * Q' <= kx * Q1 * (Z.abs (fm y) * P')) by nia.
   nia.
 Qed.
 
@@ -269,15 +278,37 @@ Proof.
   set (a := fm x * P2 (fe x)) in *. set (b := Q2 (fe x)) in *.
   assert (Ha : Z.abs a <= k * b) by (unfold a; rewrite Z.abs_mul, (Z.abs_eq (P2 _)) by lia; exact H).
   assert (Hq : Z.abs (Z.quot a b) <= k).
-  { pose proof (Z.quot_rem' a b) as E. pose proof (Z.rem_bound_abs a b ltac:(lia)) as Hr.
-    pose proof (Z.rem_sgn_nonneg a b ltac:(lia)) as Hs.
+  { rewrite <- (Z.quot_abs a b) by lia. rewrite (Z.abs_eq b) by lia.
+    pose proof (Z.mul_quot_le (Z.abs a) b ltac:(lia) ltac:(lia)) as Hm.
+    pose proof (Z.quot_pos (Z.abs a) b ltac:(lia) ltac:(lia)) as Hp.
     nia. }
   lia.
 Qed.
 
-(* `(e as f32 * w) as i32` *)
-Definition emul_f (e : Z) (w : f32) : Z := f_to_i32 (f_mul (f_of_Z e) w).
+(* crude variants without the 2^21 ceiling *)
+Lemma f_mul_le2 : forall x y kx ky, fabs_le x kx -> fabs_le y ky -> fabs_le (f_mul x y) (2 * (kx * ky)).
+Proof.
+  intros x y kx ky Hx Hy. pose proof (fabs_le_nonneg _ _ Hx). pose proof (fabs_le_nonneg _ _ Hy).
+  unfold f_mul. rewrite frac_eq. unfold fabs_le in Hx, Hy.
+  pose proof (PQ_add (fe x) (fe y)) as HI.
+  pose proof (P2_pos (fe x)). pose proof (P2_pos (fe y)). pose proof (Q2_pos (fe x)). pose proof (Q2_pos (fe y)).
+  pose proof (P2_pos (fe x + fe y)). pose proof (Q2_pos (fe x + fe y)).
+  apply rnd_le2; [assumption | nia |].
+  rewrite !Z.abs_mul. rewrite (Z.abs_eq (P2 _)) by lia.
+  set (A := Z.abs (fm x)) in *. set (B := Z.abs (fm y)) in *.
+  set (P1 := P2 (fe x)) in *. set (P' := P2 (fe y)) in *. set (Q1 := Q2 (fe x)) in *. set (Q' := Q2 (fe y)) in *.
+  set (PS := P2 (fe x + fe y)) in *. set (QS := Q2 (fe x + fe y)) in *.
+  assert (Hprod : (A * P1) * (B * P') <= (kx * Q1) * (ky * Q')).
+  { apply Z.mul_le_mono_nonneg; unfold A, B; nia. }
+  assert (E : A * B * PS * (Q1 * Q') = (A * P1) * (B * P') * QS) by (rewrite <- Z.mul_assoc, HI; ring).
+  assert (H7 : A * B * PS * (Q1 * Q') <= kx * ky * QS * (Q1 * Q')).
+  { rewrite E. replace (kx * ky * QS * (Q1 * Q')) with ((kx * Q1) * (ky * Q') * QS) by ring.
+    apply Z.mul_le_mono_nonneg_r; lia. }
+  assert (Hqq : 0 < Q1 * Q') by nia.
+  apply (Zmult_le_reg_r _ _ (Q1 * Q')); [lia | exact H7].
+Qed.
 
+(* `(e as f32 * w) as i32` is Eval.emul_f *)
 Lemma emul_f_le : forall e w ke kw, 0 <= ke -> Z.abs e <= ke -> fabs_le w kw -> ke <= 2 ^ 21 -> (ke + 1) * kw <= 2 ^ 21 ->
   Z.abs (emul_f e w) <= (ke + 1) * kw + 1.
 Proof.
@@ -285,12 +316,20 @@ Proof.
   apply f_of_Z_le; lia.
 Qed.
 
-Lemma emul_f_opp : forall e w ke kw, 0 <= ke -> Z.abs e <= ke -> fabs_le w kw -> ke <= 2 ^ 21 -> (ke + 1) * kw <= 2 ^ 21 ->
+Lemma emul_f_le2 : forall e w ke kw, 0 <= ke -> Z.abs e <= ke -> fabs_le w kw ->
+  Z.abs (emul_f e w) <= 4 * ke * kw.
+Proof.
+  intros e w ke kw H0 He Hw. unfold emul_f.
+  replace (4 * ke * kw) with (2 * ((2 * ke) * kw)) by ring.
+  apply f_to_i32_le. apply f_mul_le2; [|exact Hw].
+  unfold f_of_Z. apply rnd_le2; lia.
+Qed.
+
+Lemma emul_f_opp : forall e w ke kw, 0 <= ke -> Z.abs e <= ke -> fabs_le w kw -> 4 * ke * kw < 2147483647 ->
   emul_f (- e) w = - emul_f e w.
 Proof.
-  intros e w ke kw H0 He Hw H1 H2. pose proof (emul_f_le e w ke kw H0 He Hw H1 H2) as Hb.
-  unfold emul_f in *. rewrite f_of_Z_opp, f_mul_neg_l. apply f_to_i32_neg.
-  assert (2 ^ 21 = 2097152) by reflexivity. lia.
+  intros e w ke kw H0 He Hw H2. pose proof (emul_f_le2 e w ke kw H0 He Hw) as Hb.
+  unfold emul_f in *. rewrite f_of_Z_opp, f_mul_neg_l. apply f_to_i32_neg. lia.
 Qed.
 
 Print Assumptions emul_f_opp.
